@@ -210,7 +210,7 @@ inductive Step (p : Policy) : CB → Int → List Nat → CB → Int → List Na
 
 /-- states reachable from `New(policy)` at any instant `t0` by any finite history -/
 inductive Reach (p : Policy) : CB → Int → List Nat → Prop
-  | init (t0 : Int) : Reach p (new p t0) t0 []
+  | init (t0 : Int) (hsize : 0 < p.size) : Reach p (new p t0) t0 []
   | step {cb now ids cb' now' ids'} : Reach p cb now ids → Step p cb now ids cb' now' ids' →
       Reach p cb' now' ids'
 
@@ -325,7 +325,7 @@ theorem inv_step {p : Policy} {cb now ids cb' now' ids'} (inv : Inv p cb now ids
 
 theorem reach_inv {p : Policy} {cb now ids} (r : Reach p cb now ids) : Inv p cb now ids := by
   induction r with
-  | init t0 => exact inv_init p t0
+  | init t0 _ => exact inv_init p t0
   | step _ st ih => exact inv_step ih st
 
 /-- **Over every history**: while HALF_OPEN, the calls admitted as trials (admissions carrying the
@@ -490,7 +490,7 @@ example : (Ref.run pEx (Ref.new pEx 0) 0 []
 /-- a reachable OPEN state with outstanding admitted calls (the hypotheses of
 `open_short_circuits_history` / `open_ignores_every_completion` are satisfiable) -/
 example : ∃ cb now ids, Reach pEx cb now ids ∧ cb.st = St.open ∧ ids ≠ [] := by
-  refine ⟨_, _, _, Reach.step (Reach.step (Reach.step (Reach.step (Reach.init 0) (Step.acquire _ _ _))
+  refine ⟨_, _, _, Reach.step (Reach.step (Reach.step (Reach.step (Reach.init 0 (by decide)) (Step.acquire _ _ _))
     (Step.acquire _ _ _)) (Step.record _ _ _ 1 true 0 (by decide))) (Step.record _ _ _ 1 true 0 (by decide)),
     by decide, by decide⟩
 
@@ -605,7 +605,7 @@ entries, completions (in any order, however late) and clock advances, starting f
 state is a reachable history (so every theorem of Part 2 applies), and while HALF_OPEN the calls that are
 running as trials of the current half-open period never exceed `permittedNumberOfCallsInHalfOpenState`;
 all other callers were short-circuited (no handler call, no record). -/
-theorem concurrent_wraps_halfopen (p : Policy) (t0 : Int) (evs : List WEv) :
+theorem concurrent_wraps_halfopen (p : Policy) (hsz : 0 < p.size) (t0 : Int) (evs : List WEv) :
     let s := evs.foldl (wstep p) ⟨new p t0, t0, [], [], []⟩
     Reach p s.cb s.now s.ids ∧
     (s.cb.st = St.halfOpen →
@@ -620,7 +620,7 @@ theorem concurrent_wraps_halfopen (p : Policy) (t0 : Int) (evs : List WEv) :
       intro s hr hs
       obtain ⟨h1, h2⟩ := wstep_inv p s e hr hs
       exact ih _ h1 h2
-  obtain ⟨hr, hs⟩ := key evs ⟨new p t0, t0, [], [], []⟩ (Reach.init t0) (by simp)
+  obtain ⟨hr, hs⟩ := key evs ⟨new p t0, t0, [], [], []⟩ (Reach.init t0 hsz) (by simp)
   refine ⟨hr, fun hh => ?_⟩
   have h1 := halfopen_admits_at_most hr hh
   have h2 := hs.count_le (evs.foldl (wstep p) ⟨new p t0, t0, [], [], []⟩).cb.stateID
@@ -675,5 +675,436 @@ example : (run ⟨50, 100, true, 2, 1, 2, 1000000000, 0, 1000000000⟩
        Op.record 5 true 0, Op.acquire]).map (fun o => (o.permitted, o.st, o.total)) =
     [(true, 1, 0), (false, 1, 1), (false, 1, 1), (true, 1, 1), (false, 1, 1), (true, 1, 1), (false, 3, 2),
      (false, 3, 2)] := by decide
+
+/-! ## Part 5 — the model refines the judge's reference automaton (audit item 9)
+
+`Sim` relates a breaker state of the model to a state of the reference automaton `Ref` (the judge's spec):
+same state, entry time, epoch = state id, trial count, and — this is `WinOK` — the ring-buffer window
+refines the automaton's abstract window (`CountRel` / `TimeRel`, with the recorded seconds not ahead of the
+clock). It holds initially, is preserved by every `Step` of a history (`sim_step`), hence on every reachable
+state (`reach_sim`); it gives the window clause and the premise of `timePush_regenerated_from_source` on
+`Reach`, and `model_refines_ref`: the model's trace is accepted by `specTrace`. -/
+
+/-- the counters of a ring-buffer window are the size / failure / slow counts of the abstract window -/
+def WinAgree (win : Win) (aw : AWin) : Prop :=
+  win.total = aw.len ∧ win.failure = aw.cnt Res.failure ∧ win.slow = aw.cnt Res.slow
+
+/-- window relation while CLOSED (`p.size` slots / seconds) -/
+def ClosedWin (p : Policy) (win : Win) (aw : AWin) (now : Int) : Prop :=
+  if p.timeBased then
+    ∃ t w hi, win = Win.time t ∧ aw = AWin.time p.size w ∧ TimeRel p.size t w hi ∧ hi ≤ secIdx now
+  else ∃ c w, win = Win.count c ∧ aw = AWin.count p.size w ∧ CountRel p.size c w
+
+/-- window relation while HALF_OPEN (`p.permitted` slots; with `permitted = 0` nothing is ever recorded) -/
+def HalfWin (p : Policy) (win : Win) (aw : AWin) : Prop :=
+  ∃ c w, win = Win.count c ∧ aw = AWin.count p.permitted w ∧ c.total = w.length ∧
+    (0 < p.permitted → CountRel p.permitted c w)
+
+structure Sim (p : Policy) (cb : CB) (r : Ref) (now : Int) : Prop where
+  st : r.st = cb.st
+  since : r.since = cb.transit
+  epoch : r.epoch = cb.stateID
+  trials : cb.st = St.halfOpen → r.trials = cb.nHalf
+  closedWin : cb.st = St.closed → ClosedWin p cb.win r.win now
+  halfWin : cb.st = St.halfOpen → HalfWin p cb.win r.win
+
+theorem secIdx_mono {a b : Int} (h : a ≤ b) : secIdx a ≤ secIdx b := by
+  unfold secIdx sec; omega
+
+theorem countRel_agree {N : Nat} {c : CountWin} {w : List Res} (h : CountRel N c w) :
+    WinAgree (Win.count c) (AWin.count N w) :=
+  ⟨by simp [Win.total, AWin.len, AWin.results, h.total],
+   by simp [Win.failure, AWin.cnt, AWin.results, h.failure],
+   by simp [Win.slow, AWin.cnt, AWin.results, h.slow]⟩
+
+theorem timeRel_agree {N : Nat} {t : TimeWin} {w : List (Int × Res)} {hi : Int} (h : TimeRel N t w hi) :
+    WinAgree (Win.time t) (AWin.time N w) :=
+  ⟨by simp [Win.total, AWin.len, AWin.results, h.ring.total, tally],
+   by simp [Win.failure, AWin.cnt, AWin.results, h.ring.failure, tally],
+   by simp [Win.slow, AWin.cnt, AWin.results, h.ring.slow, tally]⟩
+
+theorem closedWin_agree {p : Policy} {win : Win} {aw : AWin} {now : Int} (h : ClosedWin p win aw now) :
+    WinAgree win aw := by
+  unfold ClosedWin at h
+  split at h
+  · obtain ⟨t, w, hi, rfl, rfl, hr, _⟩ := h; exact timeRel_agree hr
+  · obtain ⟨c, w, rfl, rfl, hr⟩ := h; exact countRel_agree hr
+
+theorem closedWin_fresh (p : Policy) (hsz : 0 < p.size) (now : Int) :
+    ClosedWin p (if p.timeBased then Win.time (newTimeWin p.size now) else Win.count (newCountWin p.size))
+      (freshWin p) now := by
+  unfold ClosedWin freshWin
+  cases p.timeBased
+  · simp only [Bool.false_eq_true, if_false]
+    exact ⟨_, _, rfl, rfl, countRel_new p.size hsz⟩
+  · simp only [if_true]
+    exact ⟨_, _, _, rfl, rfl, timeRel_new p.size hsz now, le_refl _⟩
+
+theorem closedWin_mono {p : Policy} {win : Win} {aw : AWin} {now now' : Int} (h : ClosedWin p win aw now)
+    (hle : now ≤ now') : ClosedWin p win aw now' := by
+  unfold ClosedWin at h ⊢
+  split at h
+  · obtain ⟨t, w, hi, h1, h2, hr, hh⟩ := h
+    rw [if_pos ‹_›]
+    exact ⟨t, w, hi, h1, h2, hr, le_trans hh (secIdx_mono hle)⟩
+  · rw [if_neg ‹_›]; exact h
+
+/-- a push keeps the CLOSED window relation, against the automaton's `AWin.push` -/
+theorem closedWin_push {p : Policy} {win : Win} {aw : AWin} {now : Int} (h : ClosedWin p win aw now)
+    (res : Res) (hres : res ≠ Res.unknown) : ClosedWin p (win.push now res) (aw.push now res) now := by
+  unfold ClosedWin at h ⊢
+  split at h
+  · obtain ⟨t, w, hi, rfl, rfl, hr, hh⟩ := h
+    rw [if_pos ‹_›]
+    exact ⟨_, _, _, rfl, rfl, timeRel_push hr now hh res, le_refl _⟩
+  · obtain ⟨c, w, rfl, rfl, hr⟩ := h
+    rw [if_neg ‹_›]
+    exact ⟨_, _, rfl, rfl, countRel_push hr res hres⟩
+
+theorem halfWin_fresh (p : Policy) : HalfWin p (Win.count (newCountWin p.permitted)) (AWin.count p.permitted []) :=
+  ⟨_, _, rfl, rfl, rfl, fun h => countRel_new p.permitted h⟩
+
+theorem halfWin_push {p : Policy} {win : Win} {aw : AWin} (h : HalfWin p win aw) (hp : 0 < p.permitted)
+    (now : Int) (res : Res) (hres : res ≠ Res.unknown) :
+    HalfWin p (win.push now res) (aw.push now res) ∧ WinAgree (win.push now res) (aw.push now res) := by
+  obtain ⟨c, w, rfl, rfl, _, hr⟩ := h
+  have h' := countRel_push (hr hp) res hres
+  exact ⟨⟨_, _, rfl, rfl, h'.total, fun _ => h'⟩, countRel_agree h'⟩
+
+theorem sim_new (p : Policy) (hsz : 0 < p.size) (t0 : Int) : Sim p (new p t0) (Ref.new p t0) t0 := by
+  have hne : zero.st ≠ St.closed := by simp [zero]
+  have hn := transitTo_closed p zero t0 hne
+  unfold new
+  rw [hn]
+  refine ⟨rfl, rfl, rfl, fun h => by simp at h, fun _ => closedWin_fresh p hsz t0, fun h => by simp at h⟩
+
+theorem sim_advance {p : Policy} {cb : CB} {r : Ref} {now : Int} (s : Sim p cb r now) (d : Int) (hd : 0 ≤ d) :
+    Sim p cb r (now + d) :=
+  ⟨s.st, s.since, s.epoch, s.trials, fun h => closedWin_mono (s.closedWin h) (by omega), s.halfWin⟩
+
+/-- `AcquirePermission` and the automaton's admission agree, and stay related -/
+theorem sim_acquire {p : Policy} {cb : CB} {r : Ref} {now : Int} (s : Sim p cb r now)
+    (live : cb.st = St.closed ∨ cb.st = St.halfOpen ∨ cb.st = St.open) :
+    Sim p (acquire p cb now).1 (Ref.acquire p r now).1 now ∧
+      (acquire p cb now).2.permitted = (Ref.acquire p r now).2 := by
+  obtain ⟨hst, hsince, hep, htr, hcw, hhw⟩ := s
+  rcases live with hc | hh | ho
+  · rw [closed_permits p cb now hc]
+    have : Ref.acquire p r now = (r, true) := by simp [Ref.acquire, hst, hc]
+    rw [this]
+    exact ⟨⟨hst, hsince, hep, htr, hcw, hhw⟩, rfl⟩
+  · have htrials := htr hh
+    by_cases hp : cb.nHalf < p.permitted
+    · rw [(halfopen_admits_iff p cb now hh).2 hp]
+      have : Ref.acquire p r now = ({ r with trials := r.trials + 1 }, true) := by
+        simp [Ref.acquire, hst, hh, htrials, hp]
+      rw [this]
+      exact ⟨⟨hst, hsince, hep, fun _ => by simp [htrials], hcw, hhw⟩, rfl⟩
+    · by_cases hmw : 0 < p.maxWaitHalf ∧ p.maxWaitHalf < now - cb.transit
+      · rw [maxwait_reopens p cb now hh (by omega) hmw.1 hmw.2]
+        have : Ref.acquire p r now = (r.enter p now St.open, false) := by
+          have : now - r.since > p.maxWaitHalf := by rw [hsince]; exact hmw.2
+          simp [Ref.acquire, hst, hh, htrials, hp, hmw.1, this]
+        rw [this]
+        refine ⟨⟨by simp [Ref.enter], by simp [Ref.enter], by simp [Ref.enter, hep], fun h => by simp at h,
+          fun h => by simp at h, fun h => by simp at h⟩, rfl⟩
+      · rw [halfopen_full_short_circuits p cb now hh (by omega) (by omega)]
+        have : Ref.acquire p r now = (r, false) := by
+          have : ¬ (0 < p.maxWaitHalf ∧ now - r.since > p.maxWaitHalf) := by rw [hsince]; omega
+          simp [Ref.acquire, hst, hh, htrials, hp, this]
+        rw [this]
+        exact ⟨⟨hst, hsince, hep, htr, hcw, hhw⟩, rfl⟩
+  · by_cases hw : now - cb.transit < p.waitOpen
+    · rw [open_short_circuits_until_wait p cb now ho hw]
+      have : Ref.acquire p r now = (r, false) := by
+        have : now - r.since < p.waitOpen := by rw [hsince]; exact hw
+        simp [Ref.acquire, hst, ho, this]
+      rw [this]
+      exact ⟨⟨hst, hsince, hep, htr, hcw, hhw⟩, rfl⟩
+    · rw [open_wait_elapsed_half_opens p cb now ho (by omega)]
+      have hnw : ¬ now - r.since < p.waitOpen := by rw [hsince]; exact hw
+      by_cases hp : 0 < p.permitted
+      · have : Ref.acquire p r now = ({ r.enter p now St.halfOpen with trials := 1 }, true) := by
+          simp [Ref.acquire, hst, ho, hnw, hp]
+        rw [this]
+        refine ⟨⟨by simp [Ref.enter], by simp [Ref.enter], by simp [Ref.enter, hep], fun _ => by simp [hp],
+          fun h => by simp at h, fun _ => ?_⟩, by simp [hp]⟩
+        simpa [Ref.enter] using halfWin_fresh p
+      · have : Ref.acquire p r now = (r.enter p now St.halfOpen, false) := by
+          simp [Ref.acquire, hst, ho, hnw, hp]
+        rw [this]
+        refine ⟨⟨by simp [Ref.enter], by simp [Ref.enter], by simp [Ref.enter, hep],
+          fun _ => by simp [Ref.enter, hp], fun h => by simp at h, fun _ => ?_⟩, by simp [hp]⟩
+        simpa [Ref.enter] using halfWin_fresh p
+
+theorem thresholdReached_iff {p : Policy} {win : Win} {aw : AWin} (h : WinAgree win aw) :
+    thresholdReached p aw = true ↔
+      (p.failTh * win.total ≤ 100 * win.failure ∨ p.slowTh * win.total ≤ 100 * win.slow) := by
+  obtain ⟨h1, h2, h3⟩ := h
+  simp only [thresholdReached, Bool.or_eq_true, decide_eq_true_eq, ge_iff_le, h1, h2, h3]
+
+/-- `RecordResult` and the automaton's completion agree, and stay related. A result carrying the current
+id arrives only while CLOSED or HALF_OPEN with `permitted > 0` (on a history: `Inv.open_none`, `Inv.half_cnt`). -/
+theorem sim_record {p : Policy} {cb : CB} {r : Ref} {now : Int} (s : Sim p cb r now) (hsz : 0 < p.size)
+    (id : Nat) (e : Bool) (d : Int)
+    (hcur : id = cb.stateID → cb.st = St.closed ∨ (cb.st = St.halfOpen ∧ 0 < p.permitted)) :
+    Sim p (record p cb id e d now) (Ref.record p r id (classify p e d) now) now := by
+  obtain ⟨hst, hsince, hep, htr, hcw, hhw⟩ := s
+  by_cases hid : id = cb.stateID
+  · subst hid
+    have hres := classify_known p e d
+    rcases hcur rfl with hc | ⟨hh, hp⟩
+    · -- CLOSED
+      have hcw' := closedWin_push (hcw hc) (classify p e d) hres
+      have hag := closedWin_agree hcw'
+      have hth := thresholdReached_iff (p := p) hag
+      have hver := opens_iff_threshold p cb e d now hc
+      dsimp only at hver
+      have hne : ¬ (r.st = St.halfOpen) := by rw [hst, hc]; simp
+      by_cases hreached : p.minCalls ≤ (cb.win.push now (classify p e d)).total ∧
+          (p.failTh * (cb.win.push now (classify p e d)).total ≤ 100 * (cb.win.push now (classify p e d)).failure ∨
+           p.slowTh * (cb.win.push now (classify p e d)).total ≤ 100 * (cb.win.push now (classify p e d)).slow)
+      · rw [hver.1 hreached]
+        have hlen : ¬ (r.win.push now (classify p e d)).len < p.minCalls := by rw [← hag.1]; omega
+        have : Ref.record p r cb.stateID (classify p e d) now =
+            Ref.enter p { r with win := r.win.push now (classify p e d) } now St.open := by
+          simp [Ref.record, hep, hne, hlen, hth.mpr hreached.2]
+        rw [this]
+        exact ⟨by simp [Ref.enter], by simp [Ref.enter], by simp [Ref.enter, hep], fun h => by simp at h,
+          fun h => by simp at h, fun h => by simp at h⟩
+      · rw [hver.2 hreached]
+        have : Ref.record p r cb.stateID (classify p e d) now = { r with win := r.win.push now (classify p e d) } := by
+          by_cases hlen : (r.win.push now (classify p e d)).len < p.minCalls
+          · simp [Ref.record, hep, hne, hlen]
+          · have hnt : thresholdReached p (r.win.push now (classify p e d)) = false := by
+              cases hb : thresholdReached p (r.win.push now (classify p e d)) with
+              | false => rfl
+              | true => exact absurd ⟨by rw [hag.1]; omega, hth.mp hb⟩ hreached
+            simp [Ref.record, hep, hne, hlen, hnt]
+        rw [this]
+        exact ⟨hst, hsince, hep, (fun h => by simp [hc] at h), (fun _ => hcw'), (fun h => by simp [hc] at h)⟩
+    · -- HALF_OPEN, permitted > 0
+      obtain ⟨hhw', hag⟩ := halfWin_push (hhw hh) hp now (classify p e d) hres
+      have hth := thresholdReached_iff (p := p) hag
+      have hver := halfopen_verdict p cb e d now hh
+      dsimp only at hver
+      have hrh : r.st = St.halfOpen := by rw [hst, hh]
+      by_cases hlt : (cb.win.push now (classify p e d)).total < min p.minCalls p.permitted
+      · rw [hver.1 hlt]
+        have hlen : (r.win.push now (classify p e d)).len < min p.minCalls p.permitted := by rw [← hag.1]; exact hlt
+        have : Ref.record p r cb.stateID (classify p e d) now = { r with win := r.win.push now (classify p e d) } := by
+          simp [Ref.record, hep, hrh, hlen]
+        rw [this]
+        exact ⟨hst, hsince, hep, htr, (fun h => by simp [hh] at h), (fun _ => hhw')⟩
+      · have hge : min p.minCalls p.permitted ≤ (cb.win.push now (classify p e d)).total := by omega
+        have hlen : ¬ (r.win.push now (classify p e d)).len < min p.minCalls p.permitted := by rw [← hag.1]; omega
+        by_cases hbad : p.failTh * (cb.win.push now (classify p e d)).total ≤ 100 * (cb.win.push now (classify p e d)).failure ∨
+            p.slowTh * (cb.win.push now (classify p e d)).total ≤ 100 * (cb.win.push now (classify p e d)).slow
+        · rw [hver.2.1 hge hbad]
+          have : Ref.record p r cb.stateID (classify p e d) now =
+              Ref.enter p { r with win := r.win.push now (classify p e d) } now St.open := by
+            simp [Ref.record, hep, hrh, hlen, hth.mpr hbad]
+          rw [this]
+          exact ⟨by simp [Ref.enter], by simp [Ref.enter], by simp [Ref.enter, hep], fun h => by simp at h,
+            fun h => by simp at h, fun h => by simp at h⟩
+        · rw [hver.2.2 hge hbad]
+          have hnt : thresholdReached p (r.win.push now (classify p e d)) = false := by
+            cases hb : thresholdReached p (r.win.push now (classify p e d)) with
+            | false => rfl
+            | true => exact absurd (hth.mp hb) hbad
+          have : Ref.record p r cb.stateID (classify p e d) now =
+              Ref.enter p { r with win := r.win.push now (classify p e d) } now St.closed := by
+            simp [Ref.record, hep, hrh, hlen, hnt]
+          rw [this]
+          refine ⟨by simp [Ref.enter], by simp [Ref.enter], by simp [Ref.enter, hep], fun h => by simp at h,
+            fun _ => ?_, fun h => by simp at h⟩
+          simpa [Ref.enter] using closedWin_fresh p hsz now
+  · rw [stale_result_ignored p cb id e d now hid]
+    have : Ref.record p r id (classify p e d) now = r := by
+      have : id ≠ r.epoch := by rw [hep]; exact hid
+      simp [Ref.record, this]
+    rw [this]
+    exact ⟨hst, hsince, hep, htr, hcw, hhw⟩
+
+/-- on a history a result with the current id only arrives while CLOSED, or HALF_OPEN with a trial slot -/
+theorem current_id_live {p : Policy} {cb : CB} {now : Int} {ids : List Nat} (inv : Inv p cb now ids)
+    {id : Nat} (hid : id ∈ ids) (hcur : id = cb.stateID) :
+    cb.st = St.closed ∨ (cb.st = St.halfOpen ∧ 0 < p.permitted) := by
+  subst hcur
+  have hpos : 0 < ids.count cb.stateID := List.count_pos_iff.mpr hid
+  rcases inv.live with hc | hh | ho
+  · exact Or.inl hc
+  · have := inv.half_cnt hh
+    exact Or.inr ⟨hh, by omega⟩
+  · have := inv.open_none ho
+    omega
+
+/-- **`Sim` is preserved by every step of a history** -/
+theorem sim_step {p : Policy} (hsz : 0 < p.size) {cb now ids cb' now' ids'} (inv : Inv p cb now ids) {r : Ref}
+    (s : Sim p cb r now) (st : Step p cb now ids cb' now' ids') : ∃ r', Sim p cb' r' now' := by
+  cases st with
+  | acquire => exact ⟨_, (sim_acquire s inv.live).1⟩
+  | record id e d hid => exact ⟨_, sim_record s hsz id e d (current_id_live inv hid)⟩
+  | advance d hd => exact ⟨r, sim_advance s d hd⟩
+
+/-- **`WinOK` on every reachable state**: some state of the reference automaton is `Sim`-related to it -/
+theorem reach_sim {p : Policy} {cb now ids} (h : Reach p cb now ids) : ∃ r, Sim p cb r now ∧ 0 < p.size := by
+  induction h with
+  | init t0 hsz => exact ⟨_, sim_new p hsz t0, hsz⟩
+  | step hr st ih =>
+    obtain ⟨r, s, hsz⟩ := ih
+    obtain ⟨r', s'⟩ := sim_step hsz (reach_inv hr) s st
+    exact ⟨r', s', hsz⟩
+
+/-- **The window clause on every reachable state.** While CLOSED the ring buffer *is* "the last `size`
+results" (count based: `CountRel`) resp. "the results of the last `size` seconds" (time based: `TimeRel`,
+the recorded seconds not ahead of the clock) recorded since the state was entered — so `opens_iff_threshold`
+speaks about that abstract window; while HALF_OPEN it is the trials' results (`permitted` slots). -/
+theorem reach_window {p : Policy} {cb now ids} (h : Reach p cb now ids) :
+    (cb.st = St.closed → p.timeBased = false → ∃ c w, cb.win = Win.count c ∧ CountRel p.size c w) ∧
+    (cb.st = St.closed → p.timeBased = true →
+      ∃ t w hi, cb.win = Win.time t ∧ TimeRel p.size t w hi ∧ hi ≤ secIdx now ∧ t.beginAt ≤ now ∧
+        (t.evict now).beginAt ≤ now) ∧
+    (cb.st = St.halfOpen → 0 < p.permitted → ∃ c w, cb.win = Win.count c ∧ CountRel p.permitted c w) := by
+  obtain ⟨r, s, _⟩ := reach_sim h
+  refine ⟨fun hc htb => ?_, fun hc htb => ?_, fun hh hp => ?_⟩
+  · have := s.closedWin hc
+    simp only [ClosedWin, htb, Bool.false_eq_true, if_false] at this
+    obtain ⟨c, w, h1, _, h3⟩ := this
+    exact ⟨c, w, h1, h3⟩
+  · have := s.closedWin hc
+    simp only [ClosedWin, htb, if_true] at this
+    obtain ⟨t, w, hi, h1, _, h3, h4⟩ := this
+    have hb : ∀ (t' : TimeWin) (w' : List (Int × Res)) (hi' : Int), TimeRel p.size t' w' hi' → hi' ≤ secIdx now →
+        t'.beginAt ≤ now := by
+      intro t' w' hi' hr hle
+      have h5 := hr.aligned
+      have h6 := hr.begin_le
+      unfold secIdx sec at hle
+      unfold sec at h5 h6
+      omega
+    exact ⟨t, w, hi, h1, h3, h4, hb t w hi h3 h4, hb _ _ _ (timeRel_evict h3 now h4) (le_refl _)⟩
+  · obtain ⟨c, w, h1, _, _, h4⟩ := s.halfWin hh
+    exact ⟨c, w, h1, h4 hp⟩
+
+/-- the premise of `timePush_regenerated_from_source` is discharged on every reachable state: the
+regenerated `TimeBasedWindow.Push` is the model's `push` there -/
+theorem timePush_regenerated_on_reach {p : Policy} {cb now ids} (h : Reach p cb now ids)
+    (hc : cb.st = St.closed) (htb : p.timeBased = true) (res : Res) :
+    ∃ t, cb.win = Win.time t ∧ Gen.FactsC08IR.timePushIR t now res = t.push now res := by
+  obtain ⟨t, _, _, h1, _, _, _, h5⟩ := (reach_window h).2.1 hc htb
+  exact ⟨t, h1, CircuitBreaker.timePush_regenerated_from_source t now res h5⟩
+
+/-- what the harness observes of a `Sim`-related pair is what the automaton exposes -/
+theorem sim_obs {p : Policy} {cb : CB} {r : Ref} {now : Int} (s : Sim p cb r now)
+    (live : cb.st = St.closed ∨ cb.st = St.halfOpen ∨ cb.st = St.open) :
+    cb.st.toNat = r.st.toNat ∧ (r.st.toNat == St.open.toNat || cb.win.total == r.win.len) = true := by
+  refine ⟨by rw [s.st], ?_⟩
+  rcases live with hc | hh | ho
+  · have := (closedWin_agree (s.closedWin hc)).1
+    simp [this]
+  · obtain ⟨c, w, h1, h2, h3, _⟩ := s.halfWin hh
+    simp [h1, h2, Win.total, AWin.len, AWin.results, h3]
+  · simp [s.st, ho]
+
+theorem mem_of_getD_some {α : Type} (l : List (Option α)) (i : Nat) (a : α) (h : l.getD i none = some a) :
+    some a ∈ l := by
+  rw [List.getD_eq_getElem?_getD] at h
+  cases hg : l[i]? with
+  | none => simp [hg] at h
+  | some x =>
+    simp only [hg, Option.getD_some] at h
+    subst h
+    exact List.mem_of_getElem? hg
+
+/-- the model's trace never diverges from the automaton's, from any related pair of states -/
+theorem run_refines (p : Policy) (hsz : 0 < p.size) : ∀ (ops : List Op) (cb : CB) (r : Ref) (now : Int)
+    (log : Log) (ids : List Nat) (i : Nat), Reach p cb now ids → Sim p cb r now →
+    (∀ id, some id ∈ log ↔ id ∈ ids) → (∀ d, Op.advance d ∈ ops → 0 ≤ d) →
+    firstDivergence (run p cb now log ops) (Ref.run p r now log ops) i = none
+  | [], _, _, _, _, _, _, _, _, _, _ => by simp [run, Ref.run, firstDivergence]
+  | op :: rest, cb, r, now, log, ids, i, hr, s, hlog, hadv => by
+    have inv := reach_inv hr
+    have hadv' : ∀ d, Op.advance d ∈ rest → 0 ≤ d := fun d hd => hadv d (List.mem_cons_of_mem _ hd)
+    cases op with
+    | acquire =>
+      obtain ⟨s', hperm⟩ := sim_acquire (now := now) s inv.live
+      have hr' := Reach.step hr (Step.acquire cb now ids)
+      have live' := (reach_inv hr').live
+      obtain ⟨o1, o2⟩ := sim_obs s' live'
+      have hidspec : (acquire p cb now).2.id = (acquire p cb now).1.stateID := (acquire_id_spec p cb now).2
+      have hlogeq : (if (acquire p cb now).2.permitted then some (acquire p cb now).2.id else none) =
+          (if (Ref.acquire p r now).2 then some (Ref.acquire p r now).1.epoch else none) := by
+        rw [hperm, hidspec, s'.epoch]
+      have hlog' : ∀ id, some id ∈ log ++ [if (acquire p cb now).2.permitted then some (acquire p cb now).2.id else none] ↔
+          id ∈ (if (acquire p cb now).2.permitted then (acquire p cb now).2.id :: ids else ids) := by
+        intro id
+        by_cases hp : (acquire p cb now).2.permitted = true
+        · simp only [hp, if_true, List.mem_append, Option.some.injEq, List.mem_cons, hlog id]
+          tauto
+        · simp only [hp, Bool.false_eq_true, if_false, List.mem_append, List.mem_singleton, reduceCtorEq, or_false, hlog id]
+      have ih := run_refines p hsz rest _ _ now _ _ (i + 1) hr' s' hlog' hadv'
+      simp only [run, step, Ref.run, Ref.step, firstDivergence, hperm, bne_self_eq_false, Bool.false_eq_true, if_false,
+        o1, o2, Bool.not_true]
+      rw [← hlogeq, hperm]
+      rw [hperm] at ih
+      exact ih
+    | record ref e d =>
+      cases hg : log.getD ref none with
+      | none =>
+        obtain ⟨o1, o2⟩ := sim_obs s inv.live
+        have hlog' : ∀ id, some id ∈ log ++ [none] ↔ id ∈ ids := by
+          intro id; simp [hlog id]
+        have ih := run_refines p hsz rest cb r now _ ids (i + 1) hr s hlog' hadv'
+        simp only [run, step, Ref.run, Ref.step, hg, firstDivergence, bne_self_eq_false, Bool.false_eq_true, if_false,
+          o1, o2, Bool.not_true]
+        exact ih
+      | some id =>
+        have hid : id ∈ ids := (hlog id).mp (mem_of_getD_some log ref id hg)
+        have s' := sim_record s hsz id e d (current_id_live inv hid)
+        have hr' := Reach.step hr (Step.record cb now ids id e d hid)
+        obtain ⟨o1, o2⟩ := sim_obs s' (reach_inv hr').live
+        have hlog' : ∀ id, some id ∈ log ++ [none] ↔ id ∈ ids := by
+          intro id; simp [hlog id]
+        have ih := run_refines p hsz rest _ _ now _ ids (i + 1) hr' s' hlog' hadv'
+        simp only [run, step, Ref.run, Ref.step, hg, firstDivergence, bne_self_eq_false, Bool.false_eq_true, if_false,
+          o1, o2, Bool.not_true]
+        exact ih
+    | advance d =>
+      have hd := hadv d List.mem_cons_self
+      obtain ⟨o1, o2⟩ := sim_obs s inv.live
+      have hr' := Reach.step hr (Step.advance cb now ids d hd)
+      have hlog' : ∀ id, some id ∈ log ++ [none] ↔ id ∈ ids := by
+        intro id; simp [hlog id]
+      have ih := run_refines p hsz rest cb r (now + d) _ ids (i + 1) hr' (sim_advance s d hd) hlog' hadv'
+      simp only [run, step, Ref.run, Ref.step, firstDivergence, bne_self_eq_false, Bool.false_eq_true, if_false,
+        o1, o2, Bool.not_true]
+      exact ih
+
+/-- **The judge's specification accepts the model** (`spec_accepts_model` for C08): for every policy with a
+non-empty window, every start instant and every history of admissions, completions (of any earlier admitted
+call, however late, also repeated) and non-negative clock advances, the trace of the model is the trace of
+the reference automaton `Ref` — `specTrace` holds. The property text (as formalised by `Ref`: last-N /
+last-N-seconds windows, exact rate comparison, epochs) is thereby connected to the model that is tied to
+the code. -/
+theorem model_refines_ref (p : Policy) (hsz : 0 < p.size) (t0 : Int) (ops : List Op)
+    (hadv : ∀ d, Op.advance d ∈ ops → 0 ≤ d) :
+    specTrace p t0 ops (run p (new p t0) t0 [] ops) = true := by
+  unfold specTrace
+  rw [run_refines p hsz ops (new p t0) (Ref.new p t0) t0 [] [] 0 (Reach.init t0 hsz) (sim_new p hsz t0)
+    (by intro id; simp) hadv]
+  rfl
+
+/-- the hypotheses are met by the example history of Part 4 (threshold hit exactly, wait, trial, close) -/
+example : specTrace pEx 0
+    [Op.acquire, Op.acquire, Op.record 0 false 0, Op.record 1 true 0, Op.acquire, Op.advance 999999999,
+     Op.acquire, Op.advance 1, Op.acquire, Op.acquire, Op.record 8 false 0, Op.acquire]
+    (run pEx (new pEx 0) 0 []
+      [Op.acquire, Op.acquire, Op.record 0 false 0, Op.record 1 true 0, Op.acquire, Op.advance 999999999,
+       Op.acquire, Op.advance 1, Op.acquire, Op.acquire, Op.record 8 false 0, Op.acquire]) = true :=
+  model_refines_ref pEx (by decide) 0 _ (by
+    intro d hd
+    simp only [List.mem_cons, Op.advance.injEq, reduceCtorEq, false_or, List.mem_nil_iff, or_false] at hd
+    omega)
 
 end EgVerif.C08
